@@ -88,6 +88,13 @@ def gen_core(rng, lane):
         if inst["positions"]:
             break
     n = len(inst["positions"])
+    if rng.random() < 0.25:
+        # reads that cover a single variant (a legal read set; `genotype` itself drops them, other callers of the table need not)
+        for rd in inst["reads"]:
+            if rng.random() < 0.3:
+                rd["vars"] = [rng.choice(rd["vars"])]
+        inst["single_variant_reads"] = True
+        inst["explicit_positions"] = True  # the column set stays the one of the instance, whatever the shortened reads still cover
     heavy = rng.random() < 0.15  # weights beyond the precomputed phred table (>= 256), as re-aligned long indels get
     for rd in inst["reads"]:
         for v in rd["vars"]:
